@@ -69,6 +69,18 @@ def keyfun(row, col):
     return sqlkey(row[col])
 
 
+def in_sql_order(keys, reverse):
+    """is the key sequence in `ORDER BY k1, ..., kn [DESC]` order: every term ascending, DESC binding to the last only"""
+    for x, y in zip(keys, keys[1:]):
+        for j, (a, b) in enumerate(zip(x, y)):
+            if a != b:
+                desc = reverse and j == len(x) - 1
+                if (a < b) == desc:
+                    return False
+                break
+    return True
+
+
 def mk_case(scenario, lines, feats, **kw):
     """a self-contained case: the lines, the generator's record of every line, the arguments of the scenario"""
     return dict({"scenario": scenario, "input": lines, "records": feats, "parallel": ["records"],
@@ -268,7 +280,7 @@ def run(ctx):
                 res.nontriv((si, str(ft), strand, str(order_by), reverse))
             if all(c in MODEL_KEYS for c in cols):
                 cmds.append("q " + dbside.cmd_query(ft=ftl or [], strand=strand, order_by=cols, reverse=reverse))
-                exp.append(("KEYS", ids, cols)); tags.append(("query", repr(inp)))
+                exp.append(("KEYS", ids, cols, reverse, rows)); tags.append(("query", repr(inp)))
             if len(res.samples) < 3 and len(ids) > 2 and cols:
                 res.sample({k: v for k, v in inp.items() if k != "lines"} | {"returned": ids})
     # the distinct lists and counts follow the content through a history on ONE FeatureDB object ----------------------
@@ -304,10 +316,13 @@ def run(ctx):
         for c, m, e, (comp, inp) in zip(cmds, out, exp, tags):
             res.corr_checked += 1
             if isinstance(e, tuple):
-                _, ids, cols = e
+                _, ids, cols, reverse, rws = e
                 mids = [dec(x) for x in m[3:].split(",") if x != "_"] if m.startswith("ok ") else None
                 if mids is None or sorted(mids) != sorted(ids):
                     res.corr_disagreements.append((comp, inp[:900], m[:300], enc_list(ids)))
+                elif not in_sql_order([tuple(keyfun(rws[i], c) for c in cols) for i in mids], reverse):
+                    # the model's sequence must itself be in ORDER BY order (all terms ascending, DESC on the last one)
+                    res.corr_disagreements.append((comp + " (order of the model's result)", inp[:900], m[:300], enc_list(ids)))
                 continue            # order within ties is unspecified by SQL: multiset + each side's sortedness
             if e.startswith("SET "):
                 m = "SET " + enc_list(sorted(dec(x) for x in m[3:].split(",") if x != "_")) if m.startswith("ok ") else m
